@@ -172,7 +172,7 @@ def diag_str(ds):
     return srt(out)
 
 
-def play(case, base, timeout=15.0):
+def play(case, base, timeout=15.0, binary=None, env=None):
     """run the script on the real server; returns list of canonical answers (one per open/change/req)"""
     root = os.path.join(base, case.name, "ws")
     shutil.rmtree(os.path.join(base, case.name), ignore_errors=True)
@@ -191,7 +191,7 @@ def play(case, base, timeout=15.0):
     answers = []
     c = None
     try:
-        c = lsp.Client(core.SERVER_BIN, root, timeout=timeout)
+        c = lsp.Client(binary or core.SERVER_BIN, root, timeout=timeout, env=env)
         if not case.scan_first:
             write_files()
         dead = None
